@@ -22,6 +22,7 @@ type params struct {
 	Len       int
 	Pipelined bool
 	Preconn   bool // a valid CONNECT is sent (and settled) before the sequence starts
+	Bystander bool // another connection has pipelined SUBSCRIBEs and does not read its replies
 	Real      bool // the broker reads / writes through the real transport.BaseConn over a byte-stream view of the pipe
 }
 
@@ -135,6 +136,9 @@ func sequence(x *explore.X, pr params) {
 		// small token pools: a token that is not handed back shows within the sequence length
 		// (publish tokens stay at the default 10: unfinished inbound QoS 2 handshakes legitimately hold them)
 		m.ClientParallelSubscribes = 2
+		if pr.Bystander {
+			m.ClientParallelSubscribes = 0 // the stock configuration (defaults are filled in per client)
+		}
 	})
 	w.Real = pr.Real
 	// a witness subscribed to everything sees whatever the connection under test causes to be delivered
@@ -144,6 +148,17 @@ func sequence(x *explore.X, pr params) {
 	w.Settle()
 	wit.Drain()
 	wit.Inbox = nil
+	if pr.Bystander {
+		// a peer that pipelines requests and never reads the answers only hurts itself
+		by := w.Dial("bystander")
+		by.Send(withCreds(env.Connect("bystander", true, nil), "u", "pw"))
+		w.Settle()
+		by.BEnd.Hold = true
+		for i := 0; i < 5; i++ {
+			by.Send(env.Subscribe(packet.ID(10+i), packet.Subscription{Topic: fmt.Sprintf("by/%d", i), QOS: 1}))
+		}
+		w.Settle()
+	}
 	alpha := alphabet()
 	p := w.Dial("c")
 	state := "init" // init | connected | closed
@@ -326,6 +341,7 @@ func run(r *report.Report) {
 		{"after-connect-pipelined", params{Len: 3, Preconn: true, Pipelined: true}, 0},
 		{"cold-pipelined", params{Len: 3, Pipelined: true}, 0},
 		{"after-connect-pipelined-reordered", params{Len: 2, Preconn: true, Pipelined: true}, 1},
+		{"after-connect-with-stuck-bystander", params{Len: 2, Preconn: true, Pipelined: true, Bystander: true}, 0},
 		{"cold-pipelined-over-baseconn", params{Len: 3, Pipelined: true, Real: true}, 0},
 		{"after-connect-pipelined-over-baseconn", params{Len: 3, Preconn: true, Pipelined: true, Real: true}, 0},
 	}
@@ -337,6 +353,7 @@ func run(r *report.Report) {
 			{"cold-pipelined", params{Len: 4, Pipelined: true}, 0},
 			{"after-connect-pipelined-reordered", params{Len: 3, Preconn: true, Pipelined: true}, 1},
 			{"after-connect-pipelined-reordered2", params{Len: 2, Preconn: true, Pipelined: true}, 2},
+			{"after-connect-with-stuck-bystander", params{Len: 3, Preconn: true, Pipelined: true, Bystander: true}, 0},
 			{"cold-pipelined-over-baseconn", params{Len: 4, Pipelined: true, Real: true}, 0},
 			{"after-connect-pipelined-over-baseconn", params{Len: 4, Preconn: true, Pipelined: true, Real: true}, 0},
 			{"after-connect-pipelined-over-baseconn-reordered", params{Len: 2, Preconn: true, Pipelined: true, Real: true}, 1},
@@ -345,7 +362,7 @@ func run(r *report.Report) {
 	for _, c := range cfgs {
 		js, _ := json.Marshal(c.p)
 		st := explore.Explore(explore.Config{Harness: "C20.seq", Params: string(js), Bound: c.bound, Workers: report.Workers(), Deadline: r.Deadline()})
-		r.AddExploration(c.name, "history", fmt.Sprintf("all sequences of %d packets over %d packet instances (all 14 types, ids 1/7/65535, 1-4 filters, good/bad credentials), pipelined=%v, preceded by a valid CONNECT=%v, over transport.BaseConn=%v, delay bound %d", c.p.Len, len(alphabet()), c.p.Pipelined, c.p.Preconn, c.p.Real, c.bound), st,
+		r.AddExploration(c.name, "history", fmt.Sprintf("all sequences of %d packets over %d packet instances (all 14 types, ids 1/7/65535, 1-4 filters, good/bad credentials), pipelined=%v, preceded by a valid CONNECT=%v, over transport.BaseConn=%v, with a bystander connection that pipelined 5 SUBSCRIBEs and reads nothing=%v, delay bound %d", c.p.Len, len(alphabet()), c.p.Pipelined, c.p.Preconn, c.p.Real, c.p.Bystander, c.bound), st,
 			"one execution = one packet sequence on a fresh broker with a witness subscribed to '#'; replies compared with a reference transducer; non-trivial = sequences on an accepted connection that received more than the CONNACK", "answered")
 	}
 }
